@@ -11,6 +11,9 @@
 (*                         one oligo row: sparse <<col,val,...>>; val is   *)
 (*                         the count, or value*10^6 when norm = 1;         *)
 (*                         same = 1: must equal the previous event's row   *)
+(*   obig{k,norm,rle,ncols,row}                                            *)
+(*                         an oligo row of a record given by its runs      *)
+(*                         <<class, length>> (every run at least k long)   *)
 (*   cgr{bytes,err,npts,nexact,pts,tops}                                    *)
 (*                         whole-sequence CGR: err = 1 iff the call        *)
 (*                         failed; pts = exact numerators X1,Y1,.. of the  *)
@@ -22,7 +25,7 @@
 (* EventOk on the line just consumed (TLC caches LET values in invariants, *)
 (* not in actions).                                                        *)
 (***************************************************************************)
-EXTENDS CompOps, TraceLib, FiniteSets
+EXTENDS CompOps, RunLength, TraceLib
 
 LetterByte == <<65, 67, 71, 84>>
 DecodeBytes(q) == [i \in 1..Len(q) |-> LetterByte[q[i] + 1]]
@@ -72,6 +75,29 @@ ORecOk(e, prev) ==
                     ELSE cl[p + 1] = d
      /\ e.same = 1 => row = prev.row
 
+\* the same judgement for a record given by its run lengths (RunLength: counts from the runs alone; RleAgrees is checked
+\* by TLC on a small universe). Records of tens of millions of bases: totals beyond 2^24, counts beyond 2^16.
+OBigOk(e) ==
+  LET kk  == e.k
+      cl  == CanonLists[kk]
+      tot == RleTotal(e.rle, kk)
+      kinds == RleKinds(e.rle, kk)
+      row == e.row
+      cols == RowCols(row)
+  IN /\ kk \in 1..8 /\ RleOk(e.rle, kk)
+     /\ e.ncols = Len(cl)
+     /\ Len(row) % 2 = 0
+     /\ \A p \in cols : p \in 0..(Len(cl) - 1)
+     /\ Cardinality(cols) = Len(row) \div 2
+     /\ e.norm \in {0, 1}
+     /\ IF e.norm = 0
+        THEN /\ {cl[p + 1] : p \in cols} = kinds
+             /\ \A p \in cols : RowVal(row, p) = RleOcc(e.rle, kk, cl[p + 1])
+        ELSE /\ \A p \in cols : NormOk(RowVal(row, p), RleOcc(e.rle, kk, cl[p + 1]), tot)
+             /\ \A d \in kinds : \E p \in cols \cup {0 - 1} :
+                    IF p = 0 - 1 THEN NormOk(0, RleOcc(e.rle, kk, d), tot) /\ \A q \in cols : cl[q + 1] # d
+                    ELSE cl[p + 1] = d
+
 \* ---- whole-sequence CGR (C11, C13)
 \* integer formed by the corner bits of the 20 bases ending at position i, newest first (needs i >= 20)
 TopNum(cls, i, cf(_)) == LET v[j \in 0..20] == IF j = 0 THEN 0 ELSE 2 * v[j-1] + cf(cls[i + 1 - j]) IN v[20]
@@ -112,6 +138,20 @@ CtrStressOk(e) ==
           /\ e.lines[i][2] = e.copies * Occ(cw, d)
      /\ \A i, j \in 1..Len(e.lines) : i # j => e.lines[i][1] # e.lines[j][1]
 
+\* the same for records given by their run lengths (RunLength): inputs of hundreds of thousands of bases per record, one
+\* k-mer occurring far more than 2^16 times
+SumOcc(recs, k, d) == LET t[i \in 0..Len(recs)] == IF i = 0 THEN 0 ELSE t[i-1] + RleOcc(recs[i], k, d) IN t[Len(recs)]
+CtrBigOk(e) ==
+  LET kinds == UNION {RleKinds(e.recs[i], e.k) : i \in 1..Len(e.recs)}
+  IN /\ \A i \in 1..Len(e.recs) : RleOk(e.recs[i], e.k)
+     /\ Len(e.lines) = Cardinality(kinds)
+     /\ e.temps = 0
+     /\ \A i \in 1..Len(e.lines) :
+          LET d == LowDigits(e.lines[i][1], e.k) IN
+          /\ HighZero(e.lines[i][1], e.k) /\ d \in kinds
+          /\ e.lines[i][2] = SumOcc(e.recs, e.k, d)
+     /\ \A i, j \in 1..Len(e.lines) : i # j => e.lines[i][1] # e.lines[j][1]
+
 EventOk ==
   l > 1 =>
     LET e == Rec[l - 1] IN
@@ -119,6 +159,7 @@ EventOk ==
       [] e.ev = "acgt"   -> AcgtOk(e)
       [] e.ev = "header" -> HeaderOk(e)
       [] e.ev = "orec"   -> ORecOk(e, IF l > 2 THEN Rec[l - 2] ELSE e)
+      [] e.ev = "obig"   -> OBigOk(e)
       [] e.ev = "cgr"    -> CgrOk(e)
       [] e.ev = "ocols"  -> OColsOk(e)
       \* C05: same records, another container / writer / thread count / batch limit: same bytes;
@@ -127,6 +168,7 @@ EventOk ==
       \* C14: largest index used + 1 <= buffer length, for each unchecked access site
       [] e.ev = "idx"    -> \A i \in 1..(Len(e.a) \div 2) : e.a[2 * i - 1] <= e.a[2 * i]
       [] e.ev = "ctrstress" -> CtrStressOk(e)
+      [] e.ev = "ctrbig" -> CtrBigOk(e)
       \* two renderings of the same quantity (e.g. bit patterns of the binding's and of the core's result) must be equal
       [] e.ev = "eq"     -> e.a = e.b /\ e.a # "missing"
       [] e.ev = "batchlen" -> e.got = e.n          \* a batch call returns one result per argument
